@@ -71,10 +71,14 @@ func (e *vq2Env) restart() {
 
 // vq2QueryTimeout bounds one query over a handful of bits. It only serves to turn a query that never returns into a
 // reported failure instead of a test-binary timeout; no result depends on it.
-const vq2QueryTimeout = 120 * time.Second
+const vq2QueryTimeout = 40 * time.Second
 
 func (e *vq2Env) query(index, q string) ([]interface{}, error) {
-	ctx, cancel := context.WithTimeout(context.Background(), vq2QueryTimeout)
+	return e.queryTimeout(index, q, vq2QueryTimeout)
+}
+
+func (e *vq2Env) queryTimeout(index, q string, timeout time.Duration) ([]interface{}, error) {
+	ctx, cancel := context.WithTimeout(context.Background(), timeout)
 	defer cancel()
 	type res struct {
 		r   pilosa.QueryResponse
@@ -89,19 +93,22 @@ func (e *vq2Env) query(index, q string) ([]interface{}, error) {
 	case r := <-ch:
 		if r.err != nil && ctx.Err() != nil {
 			e.restart()
-			return nil, vq2ErrHang{q}
+			return nil, vq2ErrHang{q, timeout}
 		}
 		return r.r.Results, r.err
-	case <-time.After(vq2QueryTimeout + 10*time.Second):
+	case <-time.After(timeout + 10*time.Second):
 		e.restart()
-		return nil, vq2ErrHang{q}
+		return nil, vq2ErrHang{q, timeout}
 	}
 }
 
-type vq2ErrHang struct{ q string }
+type vq2ErrHang struct {
+	q string
+	d time.Duration
+}
 
 func (h vq2ErrHang) Error() string {
-	return fmt.Sprintf("query did not return within %v: %s", vq2QueryTimeout, h.q)
+	return fmt.Sprintf("query did not return within %v: %s", h.d, h.q)
 }
 
 func vq2IsHang(err error) bool { _, ok := err.(vq2ErrHang); return ok }
@@ -228,7 +235,7 @@ type vq2Field struct {
 	Min, Max int64
 	RowPool  []uint64
 
-	std  map[uint64]vq2Set                  // standard view: row -> cols
+	std  map[uint64]vq2Set                 // standard view: row -> cols
 	tv   map[uint64]map[uint64][]time.Time // time views: row -> col -> timestamps the bit was set with
 	ints map[uint64]int64
 }
@@ -384,7 +391,7 @@ func (o vq2Op) pql(m *vq2Model) string {
 }
 
 // apply changes the model as documented and returns the documented boolean result; checkable is false where the
-// documentation does not pin the boolean down (timestamps: several views are written by one call).
+// documentation does not pin the boolean down (Set with a timestamp: several views are written by one call).
 func (m *vq2Model) apply(o vq2Op) (want bool, checkable bool) {
 	f := m.field(o.Field)
 	switch o.Kind {
@@ -431,7 +438,7 @@ func (m *vq2Model) apply(o vq2Op) (want bool, checkable bool) {
 			}
 		}
 		// "Note that clearing a column on a time field will remove all data for that column."
-		return changed || hadTime, f.Kind != "time"
+		return changed || hadTime, true
 	case "clearrow":
 		changed := len(f.std[o.Row]) > 0 || len(f.tv[o.Row]) > 0
 		delete(f.std, o.Row)
@@ -792,6 +799,7 @@ type vq2DataOpt struct {
 	Mutex     bool // mutex field m1
 	Bool      bool // bool field b1
 	MaxBits   int  // per field
+	MinBits   int  // per set/time field
 	RowsLo    int
 	RowsHi    int
 }
@@ -806,7 +814,7 @@ func vq2GenData(t *rapid.T, opt vq2DataOpt) (*vq2Model, []uint64, []vq2Op) {
 		f := m.addField(&vq2Field{Name: fmt.Sprintf("s%d", i), Kind: "set",
 			Cache: rapid.SampledFrom([]string{pilosa.CacheTypeRanked, pilosa.CacheTypeRanked, pilosa.CacheTypeNone, pilosa.CacheTypeLRU}).Draw(t, "cache")})
 		f.RowPool = vq2GenRowPool(t, opt.RowsLo, opt.RowsHi)
-		n := rapid.IntRange(0, opt.MaxBits).Draw(t, "nbits")
+		n := rapid.IntRange(opt.MinBits, opt.MaxBits).Draw(t, "nbits")
 		for j := 0; j < n; j++ {
 			ops = append(ops, vq2Op{Kind: "set", Field: f.Name, Row: rapid.SampledFrom(f.RowPool).Draw(t, "row"), Col: col()})
 		}
@@ -817,7 +825,7 @@ func vq2GenData(t *rapid.T, opt vq2DataOpt) (*vq2Model, []uint64, []vq2Op) {
 			f.NoStd = rapid.IntRange(0, 4).Draw(t, "nostd") == 0
 		}
 		f.RowPool = vq2GenRowPool(t, opt.RowsLo, opt.RowsHi)
-		n := rapid.IntRange(0, opt.MaxBits).Draw(t, "nbits")
+		n := rapid.IntRange(opt.MinBits, opt.MaxBits).Draw(t, "nbits")
 		for j := 0; j < n; j++ {
 			o := vq2Op{Kind: "set", Field: f.Name, Row: rapid.SampledFrom(f.RowPool).Draw(t, "row"), Col: col()}
 			if rapid.IntRange(0, 4).Draw(t, "ts?") > 0 {
